@@ -288,22 +288,61 @@ package thrift
 //@   ensures bad: old(p.Read) + 4 > len(p.Buf) || old(p.Read) + 4 + zx(be32(p.Buf, old(p.Read))) > len(p.Buf) ==> r0 != nil && p.Read == old(p.Read)
 //@   modifies p.Read
 
+// ---- encoded size of a value (Apache Thrift binary protocol) ------------------------------------------------
+// tfix: size of the fixed-width types; tsz: encoded size of the value of type t starting at b[o]; fsz: size of a
+// field list up to and including its STOP (0 outside the buffer); esz / psz: size of n elements / n key-value pairs
+// (recursion on n); for fixed-width element types esz/psz are given by their closed form n * size. The defining
+// equations are consistent for every buffer: each has the shape f(o) = c + f(o + c), which f(o) = K - o satisfies.
+// the code's size table agrees with tfix: same size for fixed-width types, non-positive otherwise
+//@ pure szok(n int, t Type) bool = ite(tfix(t) > 0, n == tfix(t), n <= 0)
+// tmin: the least number of bytes a successfully skipped value of type t occupies (its header)
+//@ pure tmin(t Type) int = ite(tfix(t) > 0, tfix(t), ite(t == 11, 4, ite(t == 12, 1, ite(t == 13, 6, ite(t == 14 || t == 15, 5, 0)))))
+//@ pure tfix(t Type) int = ite(t == 2 || t == 3, 1, ite(t == 4 || t == 10, 8, ite(t == 6, 2, ite(t == 8, 4, 0))))
+// n values of fixed-width type t occupy mulfix(n, t) bytes (multiplications by constants only)
+//@ pure mulfix(n int, t Type) int = ite(t == 2 || t == 3, n, ite(t == 4 || t == 10, 8*n, ite(t == 6, 2*n, ite(t == 8, 4*n, 0))))
+//@ rec tsz(b []byte, o int, t Type) int = ite(tfix(t) > 0, tfix(t), ite(t == 11, 4 + zx(be32(b, o)), ite(t == 12, fsz(b, o), \
+//@      ite(t == 13, 6 + psz(b, o+6, Type(b[o]), Type(b[o+1]), int(int32(be32(b, o+2)))), \
+//@      ite(t == 14 || t == 15, 5 + esz(b, o+5, Type(b[o]), int(int32(be32(b, o+1)))), 0)))))
+//@ rec fsz(b []byte, o int) int = ite(o < 0 || o >= len(b), 0, ite(b[o] == 0, 1, \
+//@      3 + tsz(b, o+3, Type(b[o])) + fsz(b, o + 3 + tsz(b, o+3, Type(b[o])))))
+//@ rec esz(b []byte, o int, t Type, n int) int = ite(n <= 0, 0, ite(tfix(t) > 0, mulfix(n, t), \
+//@      tsz(b, o, t) + esz(b, o + tsz(b, o, t), t, n-1)))
+//@ rec psz(b []byte, o int, kt Type, vt Type, n int) int = ite(n <= 0, 0, ite(tfix(kt) > 0 && tfix(vt) > 0, mulfix(n, kt) + mulfix(n, vt), \
+//@      tsz(b, o, kt) + tsz(b, o + tsz(b, o, kt), vt) + psz(b, o + tsz(b, o, kt) + tsz(b, o + tsz(b, o, kt), vt), kt, vt, n-1)))
+
 //@ spec (*BinaryProtocol).SkipGo
 //@   props C19 C06 C01
 //@   ensures mono: old(p.Read) <= p.Read
+//@   ensures thorough exact: r0 == nil ==> p.Read == old(p.Read) + tsz(p.Buf, old(p.Read), fieldType)
+//@   ensures progress: r0 == nil ==> p.Read >= old(p.Read) + tmin(fieldType)
 //@   modifies p.Read
 //@   decreases maxDepth
 //@   loop 1
 //@     invariant mono: old(p.Read) <= p.Read
+//@     invariant thorough size: fsz(p.Buf, old(p.Read)) == (p.Read - old(p.Read)) + fsz(p.Buf, p.Read)
+//@     unfold fsz(p.Buf, p.Read)
+//@     unfold tsz(p.Buf, p.Read+3, Type(p.Buf[p.Read]))
 //@     decreases len(p.Buf) - p.Read
 //@   loop 2
-//@     invariant mono: old(p.Read) <= p.Read
+//@     invariant mono: old(p.Read) <= p.Read && old(p.Read) + 6 <= p.Read
+//@     invariant thorough size: psz(p.Buf, old(p.Read)+6, kt, vt, int(sz)) == (p.Read - old(p.Read) - 6) + psz(p.Buf, p.Read, kt, vt, int(sz) - int(i))
+//@     invariant thorough hdr: kt == Type(p.Buf[old(p.Read)]) && vt == Type(p.Buf[old(p.Read)+1]) && sz == int32(be32(p.Buf, old(p.Read)+2)) && 0 <= i && i <= sz && \
+//@         szok(ksz, kt) && szok(vsz, vt) && !(ksz > 0 && vsz > 0)
+//@     unfold psz(p.Buf, p.Read, kt, vt, int(sz) - int(i))
+//@     unfold tsz(p.Buf, p.Read, kt)
+//@     unfold tsz(p.Buf, p.Read + tsz(p.Buf, p.Read, kt), vt)
 //@   loop 3
-//@     invariant mono: old(p.Read) <= p.Read
+//@     invariant mono: old(p.Read) <= p.Read && old(p.Read) + 5 <= p.Read
+//@     invariant thorough size: esz(p.Buf, old(p.Read)+5, vt, int(sz)) == (p.Read - old(p.Read) - 5) + esz(p.Buf, p.Read, vt, int(sz) - int(i))
+//@     invariant thorough hdr: vt == Type(p.Buf[old(p.Read)]) && sz == int32(be32(p.Buf, old(p.Read)+1)) && 0 <= i && i <= sz && tfix(vt) == 0
+//@     unfold esz(p.Buf, p.Read, vt, int(sz) - int(i))
+//@     unfold tsz(p.Buf, p.Read, vt)
 
 //@ spec (*BinaryProtocol).Skip
 //@   props C19 C06 C01
 //@   ensures mono: old(p.Read) <= p.Read
+//@   ensures exact: err == nil ==> p.Read == old(p.Read) + tsz(p.Buf, old(p.Read), fieldType)
+//@   ensures progress: err == nil ==> p.Read >= old(p.Read) + tmin(fieldType)
 //@   modifies p.Read
 
 // ---- message envelope ----------------------------------------------------------------------------------
